@@ -1,4 +1,5 @@
 import ZbossModel.Proofs.Wire
+import ZbossModel.Proofs.WireSound
 import ZbossModel.CStruct
 /-! # C16 - wire types are self-delimiting, strict on short input, and invert exactly -/
 namespace Zboss.Wire
@@ -16,6 +17,18 @@ theorem C16_inverse (w : WT) (v : Val) (b r : Bytes) (hg : w.isGreedy = false) (
 theorem C16_greedy_inverse (ts : List ST) (hpos : 0 < recSize ts) (rs : List (List SV)) (b : Bytes)
     (h : encW (.greedy ts) (.rows rs) = some b) : decW (.greedy ts) b = .ok (.rows rs, []) :=
   decW_encW_greedy ts hpos rs b h
+
+/-- **the other direction of "exact inverses"**: whatever bytes a decoder accepts, if the decoded value is one the
+    encoder accepts then its encoding is exactly the bytes consumed (every parameter type, greedy lists included
+    when their records are not empty) - a decoder never skips, invents or reinterprets a byte -/
+theorem C16_decode_sound (w : WT) (data : Bytes) (val : Val) (rest b : Bytes)
+    (hgr : ∀ ts, w = .greedy ts → 0 < recSize ts)
+    (h : decW w data = .ok (val, rest)) (he : encW w val = some b) : data = b ++ rest :=
+  decW_sound w data val rest b hgr h he
+
+/-- the caveat is real: a 255-byte string behind a one-byte length is decoded but refused by the encoder -/
+example : (match decW (.lvBytes 1) (255 :: List.replicate 255 0) with | .ok _ => true | .error _ => false) = true ∧
+    encW (.lvBytes 1) (.bytes (List.replicate 255 0)) = none := by decide +kernel
 
 /-- an encoding cut short at *any* point raises a value error - never a truncated value -/
 theorem C16_truncated (w : WT) (v : Val) (b : Bytes) (hg : w.isGreedy = false) (h : encW w v = some b)
